@@ -3971,7 +3971,8 @@ class Graph(_protocols.GraphProtocol, Sequence[Node], _display.PrettyPrintable):
                 add_predecessor(node, predecessor_node)
             # All nodes in attribute graphs are considered as direct predecessors.
             for attr in node.attributes.values():
-                if not isinstance(attr, Attr):
+                if not isinstance(attr, Attr) or attr.is_ref():
+                    # A reference attribute has no value (the graph lives in the caller)
                     continue
                 # A nice thing about this algorithm is that we only need to record
                 # direct predecessors. This continues to be true even with subgraphs.
